@@ -231,7 +231,7 @@ fn gcd_usize(a: usize, b: usize) -> usize {
     }
 }
 
-pub fn c11_inputs(ev: Ev) -> Vec<String> {
+pub fn c11_inputs(ev: Ev, thorough: bool) -> Vec<String> {
     let frac = ev.has_point();
     let pool6: Vec<&str> = if frac {
         vec!["(-3)", "(-1)", "0", "2", "5", "0.5"]
@@ -252,6 +252,15 @@ pub fn c11_inputs(ev: Ev) -> Vec<String> {
         // or rounds to it; the same value written as an integer and with a point): every sequence of length 1..4
         let near: Vec<&str> = vec!["(-3)", "(-2.5)", "(-2)", "(-2.0)", "(-0.5)", "0", "0.5", "2", "2.5", "3"];
         lists(&near, 1, 4, &mut ls);
+        if thorough {
+            lists(&near, 5, 5, &mut ls);
+        }
+    }
+    if thorough {
+        // length 5 and 6 over all 6 values, 9 and 10 over 3 values, 6 and 7 over 4 values
+        lists(&pool6, 5, 6, &mut ls);
+        lists(&pool3, 9, 10, &mut ls);
+        lists(&pool4, 6, 7, &mut ls);
     }
     let mut names: Vec<&str> = vec!["min", "max", "avg", "med", "median"];
     if ev == Ev::I64 {
@@ -364,7 +373,7 @@ fn c11_dom<D: Dom>(cx: &RunCtx) {
         return;
     }
     let kinds = [Kind::Value, Kind::WellFormedErr, Kind::MustErrOk, Kind::MalformedOk];
-    let inputs = c11_inputs(D::EV);
+    let inputs = c11_inputs(D::EV, cx.tier == Tier::Thorough);
     run_list::<D>(cx, "E-AGG argument lists x permutations", &inputs, &[D::default_at()], &kinds);
     // relation through the API alone: an argument that fails on its own makes the aggregate fail
     let mut st = crate::report::Stats::default();
